@@ -515,6 +515,20 @@ func (e *Endpoint) Close() error {
 	return nil
 }
 
+// CloseWrite half-closes the connection: the peer reads end-of-file once it has consumed what
+// was sent, while this end can still read (shutdown(SHUT_WR) on a TCP socket).
+func (e *Endpoint) CloseWrite() error {
+	s := e.n.S
+	s.Yield("CW:" + e.Name)
+	e.n.mu.Lock()
+	defer e.n.mu.Unlock()
+	if e.closed {
+		return opErr("close", net.ErrClosed)
+	}
+	e.out.wclosed = true
+	return nil
+}
+
 // CloseQuiet closes the endpoint without a scheduling point (harness use).
 func (e *Endpoint) CloseQuiet() {
 	e.n.mu.Lock()
